@@ -24,7 +24,8 @@ func handleINT(ocode ocode.Ocode) ([]byte, error) {
 		intNum = intNum[2:]
 	}
 	// Parse as decimal (base 10)
-	num, err := strconv.ParseInt(intNum, 10, 8) // Change base to 10
+	// 割り込み番号は符号なし 8 ビット (0..255): INT 0x80 などを拒否しない
+	num, err := strconv.ParseUint(intNum, 10, 8) // Change base to 10
 	if err != nil {
 		return nil, fmt.Errorf("failed to parse INT number %q: %w", ocode.Operands[0], err)
 	}
